@@ -104,6 +104,11 @@ def name_pool(ctx, ast, lits, maxlen, extra):
     for n in rng.sample(names, min(12, len(names))):
         names.append(list(n) + [L.DIGEST])
     names.append([L.DIGEST])
+    # names ending in a ParametersSha256Digest component (what signed / parameterised Interest names end in): only a trailing
+    # IMPLICIT digest is ignored, every other component counts
+    for n in rng.sample(names, min(10, len(names))):
+        names.append(list(n) + [L.PDIGEST])
+    names.append([L.PDIGEST])
     return names
 
 
